@@ -95,7 +95,7 @@ def ref_enc(spec, v):
     if n in INT_RANGES:
         lo, hi, bits, signed = INT_RANGES[n]
         return wire.sint(v, bits) if signed else wire.uint(v, bits)
-    if n == 'VarInt':
+    if n in ('VarInt', 'VarLong'):
         return wire.varint(v)
     if n == 'Float':
         return wire.f32(v)
@@ -154,6 +154,8 @@ def ref_dec(spec, data, pos):
         return (wire.read_sint if signed else wire.read_uint)(data, pos, bits)
     if n == 'VarInt':
         return wire.read_varint(data, pos)
+    if n == 'VarLong':
+        return wire.read_varint(data, pos, 11)
     if n == 'Float':
         return wire.read_f32(data, pos)
     if n == 'Double':
@@ -315,7 +317,7 @@ def value_case(ctx, case):
 
     enc_lens = {len(a) for a in allowed}
     nontriv = not is_repo_test_value(spec, v) and (
-        name in ('Boolean',) or name in INT_RANGES or
+        name in ('Boolean', 'VarLong') or name in INT_RANGES or
         name in ('Float', 'Double', 'UUID', 'Angle', 'FixedPoint',
                  'FixedPointInteger') or max(enc_lens) >= 2)
     if nontriv:
@@ -464,9 +466,14 @@ def value_strategy(spec, small=False):
                          st.sampled_from([lo, hi, 0, lo + 1, hi - 1,
                                           max(lo, -1), 1]))
     if n == 'VarInt':
-        return st.one_of(st.integers(0, 2 ** 31 - 1), st.sampled_from(
+        return st.one_of(st.integers(0, 2 ** 32 - 1), st.sampled_from(
             [0, 127, 128, 16383, 16384, 2 ** 21 - 1, 2 ** 21, 2 ** 28,
-             2 ** 31 - 1]))
+             2 ** 31 - 1, 2 ** 31, 2 ** 32 - 1]))
+    if n == 'VarLong':
+        return st.one_of(st.integers(0, 2 ** 64 - 1),
+                         st.integers(0, 2 ** 33), st.sampled_from(
+            [0, 127, 128, 2 ** 31 - 1, 2 ** 31, 2 ** 32 - 1, 2 ** 32,
+             2 ** 35 - 1, 2 ** 35, 2 ** 63 - 1, 2 ** 63, 2 ** 64 - 1]))
     if n == 'Float':
         return st.one_of(f32_values(), st.sampled_from(
             [0.0, -0.0, 1.0, -1.0, float('inf'), float('-inf'),
@@ -529,7 +536,8 @@ def value_strategy(spec, small=False):
 
 
 LEAVES = ['Boolean', 'Byte', 'UnsignedByte', 'Short', 'UnsignedShort',
-          'Integer', 'Long', 'UnsignedLong', 'VarInt', 'Float', 'Double',
+          'Integer', 'Long', 'UnsignedLong', 'VarInt', 'VarLong', 'Float',
+          'Double',
           'String', 'UUID', 'VarIntPrefixedByteArray',
           'ShortPrefixedByteArray', 'Angle', 'FixedPointInteger']
 
@@ -613,7 +621,9 @@ def t_boundaries(ctx):
         'UnsignedLong': [0, 2 ** 64 - 1] +
                         [2 ** k + d for k in range(1, 64) for d in (-1, 0)],
         'VarInt': [0, 1, 127, 128, 16383, 16384, 2 ** 21 - 1, 2 ** 21,
-                   2 ** 28 - 1, 2 ** 28, 2 ** 31 - 1],
+                   2 ** 28 - 1, 2 ** 28, 2 ** 31 - 1, 2 ** 31, 2 ** 32 - 1],
+        'VarLong': [0, 1, 127, 128] + [2 ** k + d for k in range(8, 64)
+                                       for d in (-1, 0)] + [2 ** 64 - 1],
         'Float': [0.0, -0.0, 1.401298464324817e-45, -1.401298464324817e-45,
                   1.1754942106924411e-38, 1.1754943508222875e-38,
                   3.4028234663852886e+38, -3.4028234663852886e+38,
